@@ -7,6 +7,8 @@ package engine
 
 import (
 	"context"
+	"errors"
+	"time"
 
 	"k8s.io/apimachinery/pkg/runtime/schema"
 	"sigs.k8s.io/controller-runtime/pkg/cache"
@@ -258,4 +260,122 @@ func HarnessC13StartRace() {
 		}
 	}
 	zz.Observe("created", created)
+}
+
+// zzCompletes runs a read-only engine call as a second actor and reports
+// whether it completed: under the engine the call runs in place and a lock it
+// would have to wait for ends it (recovered here); natively it runs in a
+// goroutine that is given 300 ms.
+func zzCompletes(f func()) bool {
+	done := make(chan struct{}, 1)
+	go func() {
+		defer func() { _ = recover() }()
+		f()
+		done <- struct{}{}
+	}()
+	select {
+	case <-done:
+		return true
+	case <-time.After(300 * time.Millisecond):
+		return false
+	}
+}
+
+// HarnessC13ReadersWait: while one actor is inside StartWatches' critical
+// section (the controller's Watch has been called, the source is not yet
+// recorded), a second actor's GetWatches - which reads the controller's watch
+// table - has to wait for it; IsRunning, which only reads the engine's
+// controller table, need not.
+//
+//gosym:harness seqgo locks
+//gosym:cover inside-critical-section
+func HarnessC13ReadersWait() {
+	under := &zzInformers{}
+	elected := make(chan struct{})
+	close(elected)
+	e := New(&zzMgr{elected: elected}, under, nil, nil)
+	ctrl := &zzPointCtrl{zzCtrl: &zzCtrl{started: make(chan context.Context, 4)}}
+	newCtrl := WithNewControllerFn(func(string, manager.Manager, kcontroller.Options) (kcontroller.Controller, error) { return ctrl, nil })
+	const name = "composite/xrs.example.org"
+	zz.Assert("start-no-error", e.Start(name, newCtrl) == nil)
+	<-ctrl.started
+	all := zzWatches()
+	if zz.Bool("pre.watch") {
+		zz.Assert("pre-startwatches-no-error", e.StartWatches(name, all[2]) == nil)
+	}
+	getWatchesCompleted, isRunningCompleted, reached := false, false, false
+	ctrl.point = func() {
+		if reached {
+			return
+		}
+		reached = true
+		zz.Cover("inside-critical-section")
+		getWatchesCompleted = zzCompletes(func() { _, _ = e.GetWatches(name) })
+		isRunningCompleted = zzCompletes(func() { _ = e.IsRunning(name) })
+	}
+	zz.Assert("startwatches-no-error", e.StartWatches(name, all[zz.Choose("watch", 2)]) == nil)
+	ctrl.point = nil
+	zz.Assert("critical-section-reached", reached)
+	zz.Assert("getwatches-waits-for-a-watch-start-in-progress", !getWatchesCompleted)
+	zz.Assert("isrunning-does-not-wait-for-a-watch-start", isRunningCompleted)
+	got, err := e.GetWatches(name)
+	zz.Assert("getwatches-no-error", err == nil && len(got) >= 1)
+}
+
+// zzSyncCtrl is a controller whose Start fails once its context is cancelled
+// (controller-runtime reports a cache sync cut short that way), but not
+// before the harness lets it.
+type zzSyncCtrl struct {
+	kcontroller.Controller
+	ctx     chan context.Context
+	release chan struct{}
+}
+
+func (c *zzSyncCtrl) Start(ctx context.Context) error {
+	c.ctx <- ctx
+	<-ctx.Done()
+	<-c.release
+	return errors.New("failed to wait for caches to sync: context canceled")
+}
+
+// HarnessC13StaleStop: a controller is started, stopped and started again
+// under the same name (what the XRD controller does when an XRD changes).
+// The first controller's Start returns an error only after the second one is
+// running. The second controller stays running - it is stopped by a Stop call
+// for it, not by the clean-up of its predecessor.
+//
+//gosym:harness latego locks
+//gosym:cover predecessor-failed-late
+func HarnessC13StaleStop() {
+	under := &zzInformers{}
+	elected := make(chan struct{})
+	close(elected)
+	e := New(&zzMgr{elected: elected}, under, nil, nil)
+	const name = "composite/xrs.example.org"
+	first := &zzSyncCtrl{ctx: make(chan context.Context, 1), release: make(chan struct{})}
+	second := &zzCtrl{started: make(chan context.Context, 1)}
+	n := 0
+	newCtrl := WithNewControllerFn(func(string, manager.Manager, kcontroller.Options) (kcontroller.Controller, error) {
+		n++
+		if n == 1 {
+			return first, nil
+		}
+		return second, nil
+	})
+	zz.Assert("start-no-error", e.Start(name, newCtrl) == nil)
+	zz.Assert("stop-no-error", e.Stop(context.Background(), name) == nil)
+	zz.Assert("restart-no-error", e.Start(name, newCtrl) == nil)
+	zz.Assert("running-after-restart", e.IsRunning(name))
+	// the predecessor's Start now returns its error
+	close(first.release)
+	zz.Cover("predecessor-failed-late")
+	ctx2 := <-second.started
+	stopped := false
+	select {
+	case <-ctx2.Done():
+		stopped = true
+	case <-time.After(500 * time.Millisecond):
+	}
+	zz.Assert("successor-not-cancelled-by-its-predecessors-cleanup", !stopped)
+	zz.Assert("successor-still-running", e.IsRunning(name))
 }
